@@ -21,6 +21,15 @@ def gen(rng, tier):
             yield f"{head} {zg.nm(zg.flip_case(rng, rel + apex))} {QT}"
         for o in zg.outside_names(rng, apex):
             yield f"{head} {zg.nm(o)} {QT}"
+        # names that differ from an owner of the zone in bit 5 of ONE octet ('*' / LF, '_' / DEL, ...; letters give a case variant)
+        owners = [r.split(",")[0] for r in recs]
+        for _ in range(8 if owners else 0):
+            o = rng.choice(owners)
+            labels = [] if o == "@" else o.split(".")
+            q = zg.bit5_variant(rng, labels)
+            if rng.random() < 0.4:
+                q = [rng.choice(zg.LABELS)] + q
+            yield f"{head} {zg.nm(q)} {QT}"
 
 
 def oracle_ok(case, impl, oracle):
